@@ -198,3 +198,73 @@ def _(c):
 
     c.returns(post)
     c.crosscheck = 0
+
+
+# ------------------------------------------------------------------------------------------ stock adjusters and the date-time variants
+from pyvc.contracts import Const, EnumInt  # noqa: E402
+
+from .gens import LocalDateTimeG  # noqa: E402
+
+HW = "harness.weeks:"
+LDTC = "pyoda_time._local_date_time:LocalDateTime."
+
+
+def _in_cal(a, t):
+    return And(t >= CA.soy(a.cal.cid, a.cal.min_year), t <= CA.soy(a.cal.cid, a.cal.max_year + 1) - 1)
+
+
+def _mk_adjuster(kind):
+    @contract(HW + "adjust", "C16", name=f"DateAdjusters.{kind}: the nearest date with that weekday on the stated side (same date allowed for *_or_same)")
+    def _(c):
+        c.ghost("cal", AbsCalG()).arg("kind", Const(kind)).arg("arg", EnumInt("pyoda_time._iso_day_of_week:IsoDayOfWeek", 1, 7)).arg("date", LocalDateG())
+        c.setup = _setup
+        n = lambda a: ld_dse(a, a.date)  # noqa: E731
+        fwd = kind.startswith("next")
+        same = kind.endswith("or_same")
+
+        def post(a, r):
+            d = ld_dse(a, r)
+            lo, hi = (0 if same else 1), (6 if same else 7)
+            side = And(d - n(a) >= lo, d - n(a) <= hi) if fwd else And(n(a) - d >= lo, n(a) - d <= hi)
+            return And(ld_valid_in(a.cal, r), side, dow(d) == a.arg)
+
+        c.returns(post)
+        c.raises(OverflowError, ValueError, when=lambda a: Or(Not(_in_cal(a, n(a) + 7)), Not(_in_cal(a, n(a) - 7))))
+
+    return _
+
+
+for _k in ("next", "previous", "next_or_same", "previous_or_same"):
+    _mk_adjuster(_k)
+
+
+for _k, _first in (("start_of_month", True), ("end_of_month", False)):
+
+    def _mk_month(kind=_k, first=_first):
+        @contract(HW + "adjust", "C16", name=f"DateAdjusters.{kind}: the {'first' if first else 'last'} day of the date's month")
+        def _(c):
+            c.ghost("cal", AbsCalG()).arg("kind", Const(kind)).arg("arg", Const(None)).arg("date", LocalDateG())
+            c.setup = _setup
+            c.returns(lambda a, r: And(ld_valid_in(a.cal, r), V.ld_y(r) == V.ld_y(a.date), V.ld_m(r) == V.ld_m(a.date), V.ld_d(r) == (1 if first else CA.dim(a.cal.cid, V.ld_y(a.date), V.ld_m(a.date)))))
+
+    _mk_month()
+
+
+for _k, _fwd in (("next", True), ("previous", False)):
+
+    def _mk_ldt(kind=_k, fwd=_fwd):
+        @contract(LDTC + kind, "C16", name=f"LocalDateTime.{kind}(weekday): the date moves like LocalDate.{kind}, the time of day is kept")
+        def _(c):
+            c.ghost("cal", AbsCalG()).arg("self", LocalDateTimeG()).arg("target_day_of_week", Int(1, 7))
+            c.setup = _setup
+            n = lambda a: ld_dse(a, V.ldt_date(a.self))  # noqa: E731
+
+            def post(a, r):
+                d = ld_dse(a, V.ldt_date(r))
+                side = And(d > n(a), d <= n(a) + 7) if fwd else And(d < n(a), d >= n(a) - 7)
+                return And(ld_valid_in(a.cal, V.ldt_date(r)), side, dow(d) == a.target_day_of_week, V.lt_nanos(V.ldt_time(r)) == V.lt_nanos(V.ldt_time(a.self)))
+
+            c.returns(post)
+            c.raises(OverflowError, ValueError, when=lambda a: Or(Not(_in_cal(a, n(a) + 7)), Not(_in_cal(a, n(a) - 7))))
+
+    _mk_ldt()
